@@ -185,7 +185,7 @@ func exec(line string) hx.Result {
 	h0 := k.Ledger.GetCurrentBlockHeight()
 	res := hx.Result{Key: line}
 	var outs []string
-	kinds := map[string]bool{}
+	firstKind := ""
 	for _, op := range strings.Split(f[1], ";") {
 		p := strings.Split(op, ":")
 		arg := func(i int) string {
@@ -344,7 +344,9 @@ func exec(line string) hx.Result {
 		if res.Out == "bad-op" {
 			return res
 		}
-		kinds[p[0]+" "+strings.SplitN(out, ":", 2)[0]] = true
+		if firstKind == "" {
+			firstKind = p[0] + " " + strings.SplitN(out, ":", 2)[0]
+		}
 		if isPre {
 			after := observe(k, key, txh)
 			if res.Fail == "" {
@@ -370,24 +372,8 @@ func exec(line string) hx.Result {
 	b2, _ := k.Balance("ont", rcpt.Address)
 	outs = append(outs, fmt.Sprintf("h=+%d b=%d,%d", k.Ledger.GetCurrentBlockHeight()-h0, b1, b2))
 	res.Out = strings.Join(outs, " | ")
-	var ks []string
-	for kd := range kinds {
-		ks = append(ks, kd)
-	}
-	if len(ks) > 0 {
-		res.Kind = firstSorted(ks)
-	}
+	res.Kind = firstKind
 	return res
-}
-
-func firstSorted(ks []string) string {
-	m := ks[0]
-	for _, k := range ks {
-		if k < m {
-			m = k
-		}
-	}
-	return m
 }
 
 func showVal(b []byte) string {
@@ -452,7 +438,7 @@ func main() {
 		ID: "C42",
 		Rule: "2-8 ops on a real solo ledger with a deployed NeoVM put/get contract: pre-executed and really committed storage writes and ONT transfers " +
 			"(incl. amounts above the balance), balanceOf, batches (atomic and not), deploy requests, EIP-155 contract creations with SSTORE via PreExecuteContract and " +
-			"via PreExecuteEip155Tx, garbage code; persisted reads in between. Non-trivial = every line; kinds = alphabetically first <op outcome> of the line",
+			"via PreExecuteEip155Tx, garbage code; persisted reads in between. Non-trivial = every line; kinds = <op outcome> of the first op of the line",
 		Gen:  gen,
 		Exec: exec,
 		Corpus: []string{"P pre.put:1:7;get:1;blk.put:1:8;get:1;pre.put:1:9;get:1", "P pre.ont:5;pre.bal;blk.ont:5;pre.bal;pre.ont:1000000000;pre.ont:999999995",
